@@ -35,7 +35,8 @@ def rule_route(ck, only=None):
             r = I.call_method(comp, "compile_insn", [insn, state])
             wait = I.module_get("deferred", "wait")
             r = I.call(wait, [r], {}) if r is not None else None
-            return r, list(comp.fields["emitted_files"]), list(blocks)
+            ef = comp.fields["emitted_files"] if "emitted_files" in comp.fields else I.getattr(comp, "emitted_files")
+            return r, list(ef), list(blocks)
         ps = I.explore(thunk)
         return ps
     T = lambda n: I.module_get("types", n)
@@ -150,6 +151,38 @@ def rule_block_route(ck):
         data = I.call_method(comp, "compile_block", [state, block, 0o1000])
         wait = I.module_get("deferred", "wait")
         return I.call(wait, [data], {})
+    # '.' in any word of a list - implicit or '.word' - is the address of the statement (the two spellings are one statement)
+    def thunk_dot():
+        sh = Shapes(I)
+        comp = I.instantiate(I.module_get("compiler", "Compiler"), ["ascii"], {})
+        P = I.module_get("deferred", "Promise")
+        prom = I.instantiate(P, [I.builtin_types["int"], "LA"], {})
+        I.call_method(prom, "settle", [0o1000])
+        state = {"filename": "src/prog.mac", "context": "file", "internal_symbol_prefix": ".internal1.", "local_symbol_prefix": ".local1.", "compiler": comp,
+                 "link_base": {"promise": prom, "set_where": None}, "internal_symbols_list": [], "extern_all": None, "insn": None, "emit_address": 0o1000}
+        ip = lambda: sh.mk(T("InstructionPointer"), None, None)
+        words = lambda: [sh.number("1", 1), ip(), sh.bin("add", ip(), sh.number("2", 2))]
+        stmts = [sh.mk(T("WordList"), None, None, words()),
+                 sh.mk(T("Instruction"), None, None, sh.symbol(".word"), words())]
+        block = sh.mk(T("CodeBlock"), None, None, stmts)
+        data = I.call_method(comp, "compile_block", [state, block, 0o1000])
+        return I.call(I.module_get("deferred", "wait"), [data], {})
+    try:
+        pd = I.explore(thunk_dot)
+    except Unsupported as ex:
+        raise Unknown(f"compile_block on [1, ., .+2 / .word 1, ., .+2]: {ex}") from None
+    w = lambda *xs: b"".join(x.to_bytes(2, "little") for x in xs)
+    want_dot = w(1, 0o1000, 0o1002) + w(1, 0o1006, 0o1010)
+    ck.instance(("block-route", "dot in word lists"), {"statements": "1, ., .+2 / .word 1, ., .+2   at 1000", "result": repr(pd[0].value)[:120] if pd else None}, fn=where)
+    if len(pd) != 1 or pd[0].kind != "return":
+        ck.incomplete(where, "a block of [1, ., .+2 / .word 1, ., .+2]", pd)
+    else:
+        gd = pd[0].value
+        gd = bytes(gd) if isinstance(gd, (bytes, bytearray)) else getattr(gd, "value", gd)
+        if pd[0].reported() or gd != want_dot:
+            ck.violation("compiler::Compiler.compile_word_list", f"'1, ., .+2' followed by '.word 1, ., .+2' at 1000 gives the words {[oct(int.from_bytes(gd[i:i+2], 'little')) for i in range(0, len(gd), 2)] if isinstance(gd, (bytes, bytearray)) else gd!r}; "
+                         f"expected {[oct(int.from_bytes(want_dot[i:i+2], 'little')) for i in range(0, len(want_dot), 2)]}: in both spellings '.' is the address of the statement, for every word",
+                         construct="block route: '.' in word lists", expected=repr(want_dot), found=repr(gd))
     try:
         ps = I.explore(thunk)
     except Unsupported as ex:
